@@ -366,7 +366,7 @@ fn huge_table<P: ParseAt + Fields>(ctx: &mut Ctx, enc: Enc, buf: &mut [u8]) {
     let es = size_of(P::ST, enc.c64);
     let class = class_of(enc);
     let n = buf.len() / es;
-    let first = ((1usize << 32) / es).saturating_sub(2);
+    let first = (super::util::G4 / es).saturating_sub(2);
     // distinct content in the entries around the 2^32 byte mark and in the last two
     let mut touched: Vec<usize> = (first..first + 5).chain(n - 2..n).collect();
     touched.dedup();
